@@ -16,6 +16,18 @@ def chain_session(seed, ncmd):
         if e['in']['e'] == 'msg':
             mg.learn(e['in'], [1, 2])
     atoms = [mg.pat() for _ in range(6)]
+    # atoms that look alike when printed but mean different things: a quoted string vs the same text as a word
+    # (type / enum label), a quoted number vs the number
+    words = [x for x in mg.strs if x.replace('_', '').isalnum() and not x[0].isdigit() and x != 'nil' and x.isascii()]
+    if words and r.random() < 0.6:
+        w = r.choice(words)
+        atoms += [mrender.pat_full(args=mrender.args([mrender.arg({'k': 'str', 's': w})])),
+                  mrender.pat_full(args=mrender.args([mrender.arg({'k': 'word', 't': mrender.W(w)})]))]
+    if r.random() < 0.4:
+        n = r.choice(mg.ints)
+        if n >= 0:
+            atoms += [mrender.pat_full(args=mrender.args([mrender.arg({'k': 'str', 's': str(n)})])),
+                      mrender.pat_full(args=mrender.args([mrender.arg({'k': 'int', 'v': n})]))]
     evs = [e for e in s['events'] if e['in']['e'] != 'eof']
     for _ in range(ncmd):
         which = r.choice(['filter', 'break'])
@@ -31,7 +43,8 @@ def chain_session(seed, ncmd):
             evs.append({'in': {'e': 'cmd', 'c': which, 'hasarg': False, 'ok': True}})
             continue
         else:
-            pos = r.sample(atoms, r.choice([0, 1, 1, 2]))
+            late = atoms[6:]
+            pos = r.sample(atoms, r.choice([0, 1, 1, 2])) if not (late and r.random() < 0.4) else [r.choice(late)]
             neg = r.sample(atoms, r.choice([0, 0, 1]))
             if r.random() < 0.1:
                 pos.append(mrender.STAR)
